@@ -362,7 +362,7 @@ class Path:
         self.prefix = list(prefix)
         self.taken = []
         self.solver = z3.Solver()
-        self.solver.set("timeout", 5000)
+        self.solver.set("timeout", 12000)
         self.pc = _PC(self.solver, assumptions)
         self.alternatives = []
         self.events = []  # ghost event log (calls to opaque effects, ...)
